@@ -105,4 +105,11 @@ CHECKS = {
                  "strings decoded from one buffer that is re-marshalled in place and scribbled between calls: decoded values equal the model's, every earlier decoded "
                  "variable is re-read after every call, and no decoded string may overlap the input buffer's memory.",
          "note": TB + " The concurrent part (several goroutines decoding into one interned field) is exercised by the C07 check."},
+ "C20": {"technique": "TLA+ relation Accepts(pre, flags, post) over abstract Go files, model-checked for satisfiability / idempotence; the real plenctag binary run on rendered files and judged against the relation",
+         "text": "TLC enumerates every abstract struct of up to 2 fields over 128 field variants and the 8 flag combinations and checks that the relation is satisfiable by a "
+                 "reference rewriting, idempotent and really forbids touching existing tags; the structs are rendered (top-level, generic, function-local, nested anonymous) "
+                 "and the plenctag binary built from the working tree is run in write mode, stdout mode and a second time; TLC judges the re-parsed result against the "
+                 "relation plus: only tags changed, gofmt-stable, type-checks, plenc builds a codec for every tagged struct, second run changes nothing, no crash.",
+         "note": "Trusted base: TLC; go/parser, go/format, go/types and reflect.StructTag in the harness. Only files expressible in the abstract struct model are varied (DESIGN.md section 8). "
+                 "Open finding F14b (multi-name declarations) is a named deviation."},
 }
